@@ -31,6 +31,7 @@ class Chunk:
     text: str
     name: str                  # e.g. "impl FdlActiveStation :: next_gap_poll"
     impl_header: str = ''
+    auto: bool = False         # pulled in automatically (referenced helper that is not listed in unit.toml)
 
 
 @dataclass
@@ -45,6 +46,7 @@ class GenUnit:
     proof_fns: list = field(default_factory=list)     # names of proof fns in spec.rs
     assumptions: list = field(default_factory=list)   # scanned external_body / assume_specification / axiom
     spec_lines: int = 0
+    auto_items: list = field(default_factory=list)    # items pulled in by dependency closure (R14)
 
 
 DERIVE_KEEP = ['Clone', 'Copy', 'PartialEq', 'Eq']
@@ -325,6 +327,7 @@ def extract_chunks(unit, repo):
         top = rsx.find_items(src, toks=toks)
         for spec in srcspec['items']:
             spec_n = norm_item(spec)
+            n_before = len(chunks)
             if '::' in spec_n and spec_n.split(' ', 1)[0] in ('impl', 'trait'):
                 head, fns = spec_n.split(' :: ', 1)
                 kind, header = head.split(' ', 1)
@@ -354,6 +357,9 @@ def extract_chunks(unit, repo):
                     raise LostAnchor('%s: no `%s`' % (srcspec['file'], spec_n))
                 it = its[0]
                 chunks.append(Chunk(srcspec['file'], _line_of(src, it.start), src[it.start:it.end], spec_n))
+            if srcspec.get('auto'):
+                for c_ in chunks[n_before:]:
+                    c_.auto = True
     return chunks
 
 
@@ -489,8 +495,91 @@ def splice_contract(chunk_text, contract, fn_label):
     return out
 
 
-def build(unit_dir, repo='/repo', mutate=None):
+def locate_item(unit, repo, name, type_hint=None):
+    """Find an item called `name` in the unit's source files (top level, or fn/const inside an impl).
+    Returns (file, itemspec) or None."""
+    files = []
+    for s_ in unit.get('source', []):
+        if s_['file'] not in files:
+            files.append(s_['file'])
+    for extra in unit.get('auto_search', []):
+        if extra not in files:
+            files.append(extra)
+    for f in files:
+        path = os.path.join(repo, f)
+        if not os.path.exists(path):
+            continue
+        src = open(path).read()
+        toks = rsx.lex(src)
+        top = rsx.find_items(src, toks=toks)
+        for it in top:
+            if it.kind in ('fn', 'const', 'static', 'struct', 'enum', 'type') and it.name == name:
+                return (f, '%s %s' % (it.kind, name))
+        for it in top:
+            if it.kind == 'impl' and it.body_open >= 0 and ' for ' not in it.name:
+                if type_hint and type_hint not in it.name:
+                    continue
+                for sub in rsx.find_items(src, it.body_open + 1, it.body_close, toks=toks):
+                    if sub.kind in ('fn', 'const') and sub.name == name:
+                        return (f, 'impl %s :: %s' % (it.name, name))
+    return None
+
+
+EXPR_ONLY_BAD = re.compile(r';|\blet\b|\breturn\b|\bloop\b|\bwhile\b|\bfor\b|&\s*mut\b|\?|\bunsafe\b')
+
+
+def autospec_for(text, key):
+    """R14: for an auto-included helper whose body is a single expression, derive
+    `spec fn <name>__autospec` from the same body text and the contract `ensures r == <name>__autospec(args)`.
+    Returns (spec_fn_text, contract_dict) or None."""
+    toks = rsx.code_toks(rsx.lex(text))
+    try:
+        idx = next(i for i, t in enumerate(toks) if t.kind == 'ident' and t.text == 'fn')
+    except StopIteration:
+        return None
+    name = toks[idx + 1].text
+    j = idx + 2
+    if toks[j].text == '<':
+        return None
+    pc = rsx.match_close(toks, j)
+    params_txt = text[toks[j].end:toks[pc].start]
+    k = pc + 1
+    arrow = None
+    while toks[k].text != '{':
+        if toks[k].text == '-' and toks[k + 1].text == '>':
+            arrow = k
+        if toks[k].kind == 'ident' and toks[k].text == 'where':
+            return None
+        k += 1
+    if arrow is None:
+        return None
+    rtype = text[toks[arrow + 1].end:toks[k].start].strip()
+    bc = rsx.match_close(toks, k)
+    body = text[toks[k].end:toks[bc].start]
+    body_code = ''.join(t.text + ' ' for t in toks[k + 1:bc])
+    if EXPR_ONLY_BAD.search(body_code) or re.search(r'\b(?!matches\b)[a-z_]+\s*!', body_code) or 'impl ' in rtype or 'mut' in params_txt:
+        return None
+    args = []
+    for prm in rsx.split_args(params_txt):
+        prm = prm.strip()
+        if prm in ('self', '&self'):
+            args.append('*self' if False else 'self')
+        else:
+            nm = prm.split(':', 1)[0].strip()
+            if not re.match(r'^[a-z_][A-Za-z0-9_]*$', nm):
+                return None
+            args.append(nm)
+    is_method = bool(args) and args[0] == 'self'
+    call = ('self.%s__autospec(%s)' % (name, ', '.join(args[1:]))) if is_method else ('%s%s__autospec(%s)' % ('Self::' if ' :: ' in key else '', name, ', '.join(args)))
+    spec_txt = 'pub open spec fn %s__autospec(%s) -> %s {%s}' % (name, params_txt.strip(), rtype, body)
+    contract = {'item': key, 'ret': 'r', 'ensures': '@auto.%s r == %s' % (name, call)}
+    return spec_txt, contract
+
+
+def build(unit_dir, repo='/repo', mutate=None, auto_items=None):
     unit = load_unit(unit_dir)
+    for (af, aspec) in (auto_items or []):
+        unit.setdefault('source', []).append({'file': af, 'items': [aspec], 'auto': True})
     g = GenUnit(name=unit.get('name', os.path.basename(unit_dir)))
     counts = g.rule_counts
     chunks = extract_chunks(unit, repo)
@@ -550,11 +639,20 @@ def build(unit_dir, repo='/repo', mutate=None):
         key = norm_item(ch.name)
         sha = hashlib.sha256(ch.text.encode()).hexdigest()[:16]
         if kind in ('impl', 'trait', 'fn'):
-            is_fn = ' fn ' in (' ' + text) and re.search(r'\bfn\b', text)
+            is_fn = re.search(r'\bfn\b', text) is not None
         else:
             is_fn = False
         if is_fn and pub_fields and header and not re.match(r'\s*(#\[[^\]]*\]\s*)*pub\b', text) and ' for ' not in header:
             text = re.sub(r'^((?:\s*#\[[^\]]*\]\s*)*)', lambda m: m.group(1) + 'pub ', text, count=1)
+        if ch.auto and is_fn and key not in contracts:
+            au = autospec_for(text, key)
+            g.auto_items.append({'item': key, 'file': ch.file, 'line': ch.first_line, 'autospec': bool(au)})
+            if au:
+                emit(rewrite_paths(au[0], counts))
+                contracts[key] = au[1]
+                _count(counts, 'R14.autospec')
+        elif ch.auto:
+            g.auto_items.append({'item': key, 'file': ch.file, 'line': ch.first_line, 'autospec': False})
         if key in contracts:
             used_contracts.add(key)
             c = contracts[key]
